@@ -71,7 +71,7 @@ EXPLANATION = (
     "to_dict() output (per-clone log_p/log_r, root vector, log_p, log_p_one, labels), the model's trace loop run on the real "
     "chain's per-iteration trees and concentration draws (entry dicts incl. relabelled names and _data order, alpha, log_p_one), "
     "and the schedule under a programmable clock.")
-RULE = ("dict: data sets of 3-8 exact dyadic data points (1-2 samples, grid 3-5, outlier prior 0 or 1/4), edit histories of 0-25 "
+RULE = ("dict (510 quick / 4010 thorough): data sets of 3-8 exact dyadic data points (1-2 samples, grid 3-5, outlier prior 0 or 1/4), edit histories of 0-25 "
         "ops from {place in existing clone / new clone above a subset of roots / outlier, move a data point, prune a subtree "
         "(parked or regrafted under a random clone or the root), relabel_nodes, copy, dict round trip, update}, then 4 routes x "
         "3-6 further lockstep edits (always including relabel + create_root_node so a freed graph index is re-allocated) and "
@@ -79,8 +79,8 @@ RULE = ("dict: data sets of 3-8 exact dyadic data points (1-2 samples, grid 3-5,
         "loop: full grid num_iters {0..9,12,20} x thin {1,2,3,4,7} x burnin {0,1,3} x max_time {inf, 0, k, k+1/2 for k up to "
         "burnin+num_iters+1} (sampled in quick, unit iteration durations, so limits hit in burn-in, exactly at the boundary of `>` "
         "vs `>=`, mid-run and never) x concentration update on/off x subtree prob.  chain: proposal x outliers on/off x "
-        "concentration update x thin {1,2,3} x num_iters {1..5} x max_time patterns, 3-5 data points, 2-3 particles.  cli: 2 runs "
-        "quick / 6 thorough incl. 2 chains, thin not dividing num_iters, --max-time 0, --no-concentration-update.  A dict case "
+        "concentration update x thin {1,2,3} x num_iters {1..5} x max_time patterns, 3-5 data points, 2-3 particles.  cli: 3 runs "
+        "quick / 7 thorough incl. 2 chains, thin not dividing num_iters, --max-time 0, --no-concentration-update.  A dict case "
         "is non-trivial when the tree has >= 2 clones and either an index hole, an outlier or a non-identity name/index map; a "
         "trace case when it records >= 3 entries.  Distinct = distinct case digest.")
 TRUSTED = ["pickle and gzip are exercised, not modelled (the Lean dictionary is the value handed to pickle)",
@@ -1190,10 +1190,11 @@ def _cli_cases(rnd, tier):
         {"cfg": {"burnin": 2, "num_iters": 4, "thin": 3, "max_time": "0", "cu": False}, "chains": 1, "n_mut": 2, "N": 2, "op": "0", "sub": 0.0,
          "proposal": "fully-adapted", "alpha0": 0.5},
     ]
+    cs += [
+            {"cfg": {"burnin": 1, "num_iters": 7, "thin": 3, "max_time": "inf", "cu": True}, "chains": 2, "n_mut": 4, "N": 3, "op": "0.25", "sub": 0.5,
+             "proposal": "bootstrap", "alpha0": 1.0}]
     if tier == "thorough":
         cs += [
-            {"cfg": {"burnin": 1, "num_iters": 7, "thin": 3, "max_time": "inf", "cu": True}, "chains": 2, "n_mut": 4, "N": 3, "op": "0.25", "sub": 0.5,
-             "proposal": "bootstrap", "alpha0": 1.0},
             {"cfg": {"burnin": 1, "num_iters": 6, "thin": 4, "max_time": "inf", "cu": False}, "chains": 2, "n_mut": 3, "N": 2, "op": "0", "sub": 1.0,
              "proposal": "semi-adapted", "alpha0": 2.0},
             {"cfg": {"burnin": 3, "num_iters": 3, "thin": 1, "max_time": "0", "cu": True}, "chains": 1, "n_mut": 4, "N": 2, "op": "0.5", "sub": 0.0,
@@ -1207,10 +1208,10 @@ def _cli_cases(rnd, tier):
 def cases(tier, rnd):
     out = []
     out += _cli_cases(rnd, tier)  # slow ones first so they land on different workers
-    chains = _chain_cases(rnd, 36 if tier == "quick" else 240)
+    chains = _chain_cases(rnd, 72 if tier == "quick" else 360)
     out += chains
     out += _corner_dicts(rnd)
-    out += [_dict_case(rnd) for _ in range(220 if tier == "quick" else 2500)]
+    out += [_dict_case(rnd) for _ in range(500 if tier == "quick" else 4000)]
     out += _loop_grid(rnd, tier)
     return out
 
